@@ -128,7 +128,7 @@ def warnToJson : Warn → Json
   | .unsupportedSkipped k => .str ("unsupported:" ++ String.ofList k.className)
 
 /-- the variant comes from the model (`Variant.current`) unless the request overrides it
-(`"variant": [f8, f9, f10, f25]`, used only to try the model of the patched code against a
+(`"variant": [f8, f9, f10, f121]`, used only to try the model of the patched code against a
 patched copy of the sources). -/
 def variantOf (j : Json) : Except String Variant :=
   match j.getObjVal? "variant" with
@@ -172,7 +172,7 @@ def c12Ops : List (String × Handler) := [
       ("unsupported_shapes", .arr (unsupportedShapes.map nameToJson).toArray),
       ("valid_columns", .arr (validColumns.map nameToJson).toArray),
       ("variant", .arr #[.bool Variant.current.f8, .bool Variant.current.f9,
-                         .bool Variant.current.f10, .bool Variant.current.f25])]))
+                         .bool Variant.current.f10, .bool Variant.current.f121])]))
 ]
 
 end Driver
